@@ -45,6 +45,7 @@ STRUCTS = {
     'BitVector': ('Sucds.BV', {'words': 'words', 'len': 'len'}),
     'Rank9SelIndex': ('Sucds.R9Index', {'len': 'len', 'block_rank_pairs': 'pairs', 'select1_hints': 'sel1', 'select0_hints': 'sel0'}),
     'CompactVector': ('Sucds.CV', {'chunks': 'chunks', 'len': 'len', 'width': 'width'}),
+    'EliasFanoBuilder': ('Sucds.EFB', {'high_bits': 'high', 'low_bits': 'low', 'universe': 'univ', 'num_vals': 'numVals', 'pos': 'pos', 'last': 'last', 'low_len': 'lowLen'}),
 }
 # table constants that gen_consts.py already extracts (as `List Nat`)
 TABLES = {'SELECT_IN_BYTE': 'Gen.SELECT_IN_BYTE.toArray', 'DEBRUIJN64_MAPPING': 'Gen.DEBRUIJN64_MAPPING.toArray'}
@@ -69,6 +70,8 @@ def conv_type(t, ctx=None):
     if tag == 'path':
         segs, args = t[1], t[2]
         n = segs[-1]
+        if len(segs) == 2 and segs[0] == 'Self' and ctx is not None and n in getattr(ctx, 'assoc', {}):
+            return conv_type(ctx.assoc[n], ctx)
         if n in INT_TYPES: return 'usize'
         if n == 'bool': return 'bool'
         if n == 'Option': return ('opt', conv_type(args[0], ctx))
@@ -77,6 +80,7 @@ def conv_type(t, ctx=None):
         if n == 'Self' and ctx is not None and ctx.owner: return ('struct', ctx.owner)
         if ctx is not None and n in ctx.generic_lists: return ('list', ctx.generic_lists[n])
         if n in ('isize', 'i64', 'i32', 'f64', 'f32'): raise Unsupported('type %s' % n)
+        if ctx is not None: return ('struct', ctx.crate.qual(ctx.module, n))
         return ('struct', n)
     if tag == 'impl': raise Unsupported('impl-trait type')
     raise Unsupported('type %r' % (t,))
@@ -93,8 +97,18 @@ def lean_type(t):
     if t[0] == 'tuple': return '(' + ' × '.join(lean_type(x) for x in t[1]) + ')'
     if t[0] == 'struct':
         if t[1] in STRUCTS: return STRUCTS[t[1]][0]
+        if CRATE is not None and CRATE.auto_struct(t[1]): return t[1]
         raise Unsupported('struct %s has no model structure' % t[1])
     raise Unsupported('type %r' % (t,))
+
+CRATE = None
+LEAN_RESERVED = {'c', 'fun', 'let', 'if', 'then', 'else', 'match', 'with', 'do', 'at', 'from', 'end', 'in', 'open', 'def', 'show', 'have', 'by',
+                 'universe', 'variable', 'theorem', 'structure', 'instance', 'class', 'namespace', 'section', 'example', 'where', 'deriving',
+                 'extends', 'import', 'export', 'axiom', 'inductive', 'abbrev', 'attribute', 'private', 'protected', 'partial', 'unsafe', 'mutual',
+                 'macro', 'syntax', 'notation', 'prefix', 'infix', 'postfix', 'local', 'scoped', 'nomatch', 'nofun', 'calc', 'then', 'using', 'Type', 'Prop', 'Sort', 'set_option', 'noncomputable', 'opaque', 'return', 'for', 'unless', 'try', 'catch', 'finally', 'mut', 'break', 'continue', 'this', 'suffices', 'obtain', 'exact', 'R'}
+def lean_ident(n):
+    n = re.sub(r'[^A-Za-z0-9_]', '_', n) or 't'
+    return n + '_' if n in LEAN_RESERVED else n
 
 def indent(s, n=2):
     pad = ' ' * n
@@ -120,12 +134,15 @@ def matching_paren(s):
 # the crate-level symbol table
 
 class FnInfo:
-    def __init__(self, ast, impl, module, path):
+    def __init__(self, ast, impl, module, path, crate=None):
         self.ast = ast; self.name = ast[1]; self.module = module; self.path = path
         self.trait = None; self.owner = None; self.impl_generics = []
+        self.assoc = {}
         if impl is not None:
-            tr, ty, gens = impl
+            tr, ty, gens = impl[:3]
+            self.assoc = impl[3] if len(impl) > 3 else {}
             self.owner = ty[1][-1] if ty[0] == 'path' else None
+            if self.owner and crate is not None: self.owner = crate.qual(module, self.owner)
             self.trait = tr[1][-1] if tr is not None and tr[0] == 'path' else None
             self.impl_generics = gens
         self.meta = ast[6]
@@ -138,27 +155,67 @@ class FnInfo:
 
 class Crate:
     def __init__(self, repo):
+        global CRATE
+        CRATE = self
         self.repo = repo; self.fns = {}; self.by_name = {}; self.consts = {}; self.structs = {}; self.order = []; self.struct_order = {}; self.derives = {}
+        self.struct_modules = {}; self.struct_ast = {}; self.ftypes = {}; self.auto_used = []
         self.parse_errors = []
+        parsed = []
         for path, module in FILES:
             try:
                 items = parse_file(os.path.join(repo, path))
             except (ParseError, OSError) as e:
                 self.parse_errors.append('%s: %s' % (path, e)); continue
+            parsed.append((items, module, path))
+            self.collect_structs(items, module)
+        for (module, name), it in self.struct_ast.items():
+            q = self.qual(module, name)
+            self.structs[q] = dict((f, t) for f, t in it[3]); self.struct_order[q] = [f for f, _ in it[3]]; self.derives[q] = it[5]
+            self.struct_home = getattr(self, 'struct_home', {}); self.struct_home[q] = module
+        for items, module, path in parsed:
             self.collect(items, module, path)
+    def collect_structs(self, items, module):
+        for it in items:
+            if it[0] == 'struct':
+                self.struct_modules.setdefault(it[1], []).append(module); self.struct_ast[(module, it[1])] = it
+            elif it[0] == 'mod': self.collect_structs(it[2], module)
+    def qual(self, module, name):
+        ms = self.struct_modules.get(name, [])
+        if len(ms) <= 1: return name
+        if module in ms: return '%s_%s' % (module, name)
+        return '%s_%s' % (ms[0], name)
+    def ftype(self, q, f):
+        """converted type of field `f` of struct `q` (in the struct's own module context)"""
+        key = (q, f)
+        if key not in self.ftypes:
+            class C: pass
+            c = C(); c.crate = self; c.module = self.struct_home[q]; c.owner = q; c.generic_lists = {}
+            self.ftypes[key] = conv_type(self.structs[q][f], c)
+        return self.ftypes[key]
+    def auto_struct(self, q):
+        """a struct without a model counterpart gets a generated Lean structure (same field names)"""
+        if q in STRUCTS: return False
+        if q not in self.structs: return False
+        if q in self.auto_used: return True
+        if q in getattr(self, '_auto_busy', set()): return False
+        self._auto_busy = getattr(self, '_auto_busy', set()) | {q}
+        try:
+            for f in self.struct_order[q]: lean_type(self.ftype(q, f))
+        except Unsupported:
+            return False
+        finally:
+            self._auto_busy = self._auto_busy - {q}
+        self.auto_used.append(q)
+        return True
     def collect(self, items, module, path):
         for it in items:
             if it[0] == 'const':
                 self.consts[(module, it[1])] = it
-            elif it[0] == 'struct':
-                self.structs[it[1]] = dict((f, t) for f, t in it[3])
-                self.struct_order[it[1]] = [f for f, _ in it[3]]
-                self.derives[it[1]] = it[5]
             elif it[0] == 'mod':
                 self.collect(it[2], module, path)
         for impl, f in walk_fns(items):
             if f[5] is None: continue
-            fi = FnInfo(f, impl, module, path)
+            fi = FnInfo(f, impl, module, path, self)
             k = fi.key()
             if k in self.fns:
                 # inherent method and trait method of the same name, or cfg-duplicates: qualify by trait
@@ -218,7 +275,7 @@ class Frame:
 class Ctx:
     def __init__(self, tr, fi):
         self.T = tr; self.fi = fi; self.crate = tr.crate
-        self.owner = fi.owner; self.module = fi.module
+        self.owner = fi.owner; self.module = fi.module; self.assoc = fi.assoc
         self.env = {}             # rust name -> (lean term, type)
         self.counter = {}
         self.frames = []
@@ -228,8 +285,7 @@ class Ctx:
         self.aliases = {}         # rust name -> place it dereferences to (for `let x = v.last_mut().unwrap()`)
         self.uses_c = False; self.eff = False; self.pure_mode = False
     def fresh(self, hint):
-        hint = re.sub(r'[^A-Za-z0-9_]', '_', hint) or 't'
-        if hint in ('c', 'fun', 'let', 'if', 'then', 'else', 'match', 'with', 'do', 'at', 'from', 'end', 'in', 'open', 'def', 'show', 'have', 'by'): hint += '_'
+        hint = lean_ident(hint)
         n = self.counter.get(hint, 0); self.counter[hint] = n + 1
         return hint if n == 0 else '%s%d' % (hint, n)
     def bind_var(self, rust, term, ty):
@@ -273,7 +329,7 @@ class Translator:
             rt = self.typeof(e[1], ctx)
             if rt and rt[0] == 'struct':
                 fs = self.crate.structs.get(rt[1])
-                if fs and e[2] in fs: return conv_type(fs[e[2]], ctx)
+                if fs and e[2] in fs: return self.crate.ftype(rt[1], e[2])
             if rt and rt[0] == 'tuple' and e[2].isdigit(): return rt[1][int(e[2])]
             return None
         if t == 'index':
@@ -302,7 +358,7 @@ class Translator:
                 if n == 'Some': return ('opt', self.typeof(e[2][0], ctx))
                 if n == 'Ok': return ('res', self.typeof(e[2][0], ctx))
                 if n == 'Err': return ('res', None)
-                if n == 'default' and len(f[1]) == 2: return ('struct', ctx.owner if f[1][0] == 'Self' else f[1][0])
+                if n == 'default' and len(f[1]) == 2: return ('struct', ctx.owner if f[1][0] == 'Self' else self.crate.qual(ctx.module, f[1][0]))
                 if len(f[1]) == 2 and f[1][0] == 'Vec': return ('vec', None)
                 fi = self.resolve_path_fn(f[1], ctx)
                 if fi is not None: return self.ret_type_of(fi)
@@ -322,7 +378,7 @@ class Translator:
             if e[1] == 'vec': return ('vec', None)
             return 'unit'
         if t == 'cfg': return self.typeof(e[2], ctx)
-        if t == 'struct': return ('struct', ctx.owner if e[1][-1] == 'Self' else e[1][-1])
+        if t == 'struct': return ('struct', ctx.owner if e[1][-1] == 'Self' else self.crate.qual(ctx.module, e[1][-1]))
         if t == 'range': return ('range',)
         return None
 
@@ -340,7 +396,7 @@ class Translator:
             ctx.env = saved
 
     def builtin_method_type(self, rt, m, e, ctx):
-        if m in ('wrapping_mul', 'wrapping_add', 'wrapping_sub', 'saturating_add', 'saturating_sub', 'count_ones', 'trailing_zeros',
+        if m in ('wrapping_shl', 'wrapping_shr', 'wrapping_mul', 'wrapping_add', 'wrapping_sub', 'saturating_add', 'saturating_sub', 'count_ones', 'trailing_zeros',
                  'leading_zeros', 'min', 'max', 'pow'): return 'usize'
         if rt and rt[0] in ('vec', 'list'):
             if m == 'len': return 'usize'
@@ -363,6 +419,13 @@ class Translator:
         if owner is None or owner in ('Self', 'self', 'crate'):
             c = cr.consts.get((ctx.module, name))
             if c is not None: return (ctx.module, c)
+            # a constant imported with `use`: unambiguous when every definition of that name has the same value
+            cands = [(m, v) for (m, k), v in sorted(cr.consts.items()) if k == name]
+            vals = set()
+            for m, v in cands:
+                try: vals.add(eval_const(v[3], cr, m))
+                except Unsupported: vals.add(None)
+            if cands and len(vals) == 1 and None not in vals: return cands[0]
             return None
         for (m, k), v in cr.consts.items():
             if k == name and (m == owner or m.startswith(owner)): return (m, v)
@@ -374,6 +437,7 @@ class Translator:
             return self.crate.lookup(ctx.module, n) if not ctx.owner else (self.crate.fns.get((ctx.module, n)) or next((f for f in self.crate.by_name.get(n, []) if f.owner is None and f.module == ctx.module), None))
         q = segs[-2]
         if q == 'Self': q = ctx.owner
+        else: q = self.crate.qual(ctx.module, q)
         return self.crate.lookup(q, n)
 
     def ret_type_of(self, fi):
@@ -399,6 +463,15 @@ class Translator:
 
     # ---- helpers ---------------------------------------------------------------------------------
     LEAN_NS = 'Sucds.GenFn'
+
+    def sinfo(self, q):
+        """(Lean structure name, {rust field: lean field}) of a struct"""
+        if q in STRUCTS: return STRUCTS[q]
+        if self.crate.auto_struct(q): return (q, dict((f, f) for f in self.crate.struct_order[q]))
+        raise Unsupported('struct %s has no Lean structure' % q)
+
+    def has_struct(self, q):
+        return q in STRUCTS or self.crate.auto_struct(q)
 
     def lean_fn_name(self, fi):
         return '%s.%s' % (fi.k[0], fi.k[1])
@@ -475,7 +548,7 @@ class Translator:
         raise Unsupported('unary %s' % op)
 
     PURE_USIZE_METHODS = {'wrapping_mul': 'RS.wrappingMul', 'wrapping_add': 'RS.wrappingAdd', 'wrapping_sub': 'RS.wrappingSub',
-                          'saturating_add': 'RS.saturatingAdd', 'saturating_sub': 'RS.saturatingSub', 'min': 'Nat.min', 'max': 'Nat.max'}
+                          'wrapping_shl': 'RS.wrappingShl', 'wrapping_shr': 'RS.wrappingShr', 'saturating_add': 'RS.saturatingAdd', 'saturating_sub': 'RS.saturatingSub', 'min': 'Nat.min', 'max': 'Nat.max'}
 
     def builtin_method(self, rt, m, recv, args, ctx):
         """pure builtin methods -> (term, type) | None;  effectful -> ('eff', monadic term, type)"""
@@ -531,10 +604,9 @@ class Translator:
         if t == 'field':
             base, bt = self.pure(e[1], ctx)
             if bt and bt[0] == 'struct':
-                if bt[1] not in STRUCTS: raise Unsupported('struct %s' % bt[1])
-                fm = STRUCTS[bt[1]][1]
+                fm = self.sinfo(bt[1])[1]
                 if e[2] not in fm or e[2] not in self.crate.structs.get(bt[1], {}): raise Unsupported('field %s.%s' % (bt[1], e[2]))
-                return ('%s.%s' % (paren(base), fm[e[2]]), conv_type(self.crate.structs[bt[1]][e[2]], ctx))
+                return ('%s.%s' % (paren(base), fm[e[2]]), self.crate.ftype(bt[1], e[2]))
             if bt and bt[0] == 'tuple' and e[2].isdigit():
                 return (self.tuple_proj(base, int(e[2]), len(bt[1])), bt[1][int(e[2])])
             raise Unsupported('field access .%s on %r' % (e[2], bt))
@@ -563,7 +635,7 @@ class Translator:
                 return (('some %s' if n == 'Some' else 'RS.Res.ok %s') % paren(a), ('opt' if n == 'Some' else 'res', at))
             if n == 'Err': return ('RS.Res.err', ('res', None))
             if n == 'default' and len(f[1]) == 2 and not e[2]:
-                tn = ctx.owner if f[1][0] == 'Self' else f[1][0]
+                tn = ctx.owner if f[1][0] == 'Self' else self.crate.qual(ctx.module, f[1][0])
                 return (self.default_term(('struct', tn), ctx), ('struct', tn))
             if len(f[1]) == 2 and f[1][0] == 'Vec' and n == 'new' and not e[2]: return ('#[]', ('vec', None))
             if len(f[1]) == 2 and f[1][0] == 'Vec' and n == 'with_capacity' and len(e[2]) == 1:
@@ -606,12 +678,12 @@ class Translator:
             a, at = self.pure(e[2], ctx); b, bt = self.pure(e[3], ctx)
             return ('(if %s.intrinsics then %s else %s)' % (ctx.c(), a, b), at)
         if t == 'struct':
-            name = ctx.owner if e[1][-1] == 'Self' else e[1][-1]
-            if name not in STRUCTS or e[3] is not None: raise Unsupported('struct literal %s' % name)
-            fm = STRUCTS[name][1]; parts = []
+            name = ctx.owner if e[1][-1] == 'Self' else self.crate.qual(ctx.module, e[1][-1])
+            if not self.has_struct(name) or e[3] is not None: raise Unsupported('struct literal %s' % name)
+            fm = self.sinfo(name)[1]; parts = []
             for fn_, fe in e[2]:
                 a, at = self.pure(fe, ctx); parts.append('%s := %s' % (fm[fn_], a))
-            return ('({ %s } : %s)' % (', '.join(parts), STRUCTS[name][0]), ('struct', name))
+            return ('({ %s } : %s)' % (', '.join(parts), self.sinfo(name)[0]), ('struct', name))
         if t in ('index', 'try', 'iflet', 'closure', 'match', 'macro', 'return', 'break', 'continue', 'assign', 'while', 'whilelet', 'loop', 'for', 'cfg'):
             raise Impure()
         raise Unsupported('expression %s' % t)
@@ -648,10 +720,10 @@ class Translator:
         if ty == 'bool': return 'false'
         if ty and ty[0] == 'vec': return '#[]'
         if ty and ty[0] == 'opt': return 'none'
-        if ty and ty[0] == 'struct' and ty[1] in STRUCTS and 'Default' in self.crate.derives.get(ty[1], []):
-            fm = STRUCTS[ty[1]][1]
-            parts = ['%s := %s' % (fm[f], self.default_term(conv_type(self.crate.structs[ty[1]][f], ctx), ctx)) for f in self.crate.struct_order[ty[1]]]
-            return '({ %s } : %s)' % (', '.join(parts), STRUCTS[ty[1]][0])
+        if ty and ty[0] == 'struct' and self.has_struct(ty[1]) and 'Default' in self.crate.derives.get(ty[1], []):
+            fm = self.sinfo(ty[1])[1]
+            parts = ['%s := %s' % (fm[f], self.default_term(self.crate.ftype(ty[1], f), ctx)) for f in self.crate.struct_order[ty[1]]]
+            return '({ %s } : %s)' % (', '.join(parts), self.sinfo(ty[1])[0])
         raise Unsupported('Default for %r' % (ty,))
 
     def call_term(self, fi, args, ctx):
@@ -665,7 +737,7 @@ class Translator:
         ctx.eff = True
         body = k('()' if ty == 'unit' else v, ty)
         if body.strip() == '.ok %s' % v and ty != 'unit': return m      # monad law: m >>= pure = m
-        return '(%s).bind fun %s =>\n%s' % (m, v, body)
+        return '%s.bind fun %s =>\n%s' % (paren(m), v, body)
 
     def tr(self, e, ctx, k, hint='t'):
         try:
@@ -725,8 +797,8 @@ class Translator:
         if t == 'field':
             def after(a, at):
                 if at and at[0] == 'tuple' and e[2].isdigit(): return k(self.tuple_proj(a, int(e[2]), len(at[1])), at[1][int(e[2])])
-                if at and at[0] == 'struct' and at[1] in STRUCTS:
-                    return k('%s.%s' % (paren(a), STRUCTS[at[1]][1][e[2]]), conv_type(self.crate.structs[at[1]][e[2]], ctx))
+                if at and at[0] == 'struct' and self.has_struct(at[1]):
+                    return k('%s.%s' % (paren(a), self.sinfo(at[1])[1][e[2]]), self.crate.ftype(at[1], e[2]))
                 raise Unsupported('field .%s' % e[2])
             return self.tr(e[1], ctx, after)
         if t == 'tuple':
@@ -781,10 +853,10 @@ class Translator:
         if t in ('assign', 'while', 'whilelet', 'loop', 'for'):
             return self.tr_stmt_expr(e, ctx, lambda: k('()', 'unit'))
         if t == 'struct':
-            name = ctx.owner if e[1][-1] == 'Self' else e[1][-1]
-            if name not in STRUCTS or e[3] is not None: raise Unsupported('struct literal %s' % name)
-            fm = STRUCTS[name][1]
-            return self.tr_list([fe for _, fe in e[2]], ctx, lambda vs: k('({ %s } : %s)' % (', '.join('%s := %s' % (fm[fn_], v) for (fn_, _), (v, _) in zip(e[2], vs)), STRUCTS[name][0]), ('struct', name)))
+            name = ctx.owner if e[1][-1] == 'Self' else self.crate.qual(ctx.module, e[1][-1])
+            if not self.has_struct(name) or e[3] is not None: raise Unsupported('struct literal %s' % name)
+            fm = self.sinfo(name)[1]
+            return self.tr_list([fe for _, fe in e[2]], ctx, lambda vs: k('({ %s } : %s)' % (', '.join('%s := %s' % (fm[fn_], v) for (fn_, _), (v, _) in zip(e[2], vs)), self.sinfo(name)[0]), ('struct', name)))
         raise Unsupported('expression %s' % t)
 
     def tr_mcall(self, e, ctx, k, hint):
@@ -932,7 +1004,7 @@ class Translator:
         if p[0] == 'var': return ctx.lookup(p[1])[1]
         if p[0] == 'field':
             bt = self.place_type(p[1], ctx)
-            if bt and bt[0] == 'struct': return conv_type(self.crate.structs[bt[1]][p[2]], ctx)
+            if bt and bt[0] == 'struct': return self.crate.ftype(bt[1], p[2])
             if bt and bt[0] == 'tuple': return bt[1][int(p[2])]
             return None
         if p[0] == 'index':
@@ -944,8 +1016,8 @@ class Translator:
             return k(*ctx.lookup(p[1]))
         if p[0] == 'field':
             def after(b, bt):
-                if bt and bt[0] == 'struct' and bt[1] in STRUCTS and p[2] in STRUCTS[bt[1]][1]:
-                    return k('%s.%s' % (paren(b), STRUCTS[bt[1]][1][p[2]]), conv_type(self.crate.structs[bt[1]][p[2]], ctx))
+                if bt and bt[0] == 'struct' and self.has_struct(bt[1]) and p[2] in self.sinfo(bt[1])[1]:
+                    return k('%s.%s' % (paren(b), self.sinfo(bt[1])[1][p[2]]), self.crate.ftype(bt[1], p[2]))
                 if bt and bt[0] == 'tuple': return k(self.tuple_proj(b, int(p[2]), len(bt[1])), bt[1][int(p[2])])
                 raise Unsupported('field place .%s' % p[2])
             return self.read_place(p[1], ctx, after)
@@ -966,8 +1038,8 @@ class Translator:
             return 'let %s := %s\n%s' % (v, val, k0())
         if p[0] == 'field':
             def after(b, bt):
-                if not (bt and bt[0] == 'struct' and bt[1] in STRUCTS): raise Unsupported('field write on %r' % (bt,))
-                return self.write_place(p[1], '{ %s with %s := %s }' % (b, STRUCTS[bt[1]][1][p[2]], val), bt, ctx, k0)
+                if not (bt and bt[0] == 'struct' and self.has_struct(bt[1])): raise Unsupported('field write on %r' % (bt,))
+                return self.write_place(p[1], '{ %s with %s := %s }' % (b, self.sinfo(bt[1])[1][p[2]], val), bt, ctx, k0)
             return self.read_place(p[1], ctx, after)
         if p[0] == 'index':
             def after(b, bt):
@@ -1122,6 +1194,9 @@ class Translator:
             m = 'if %s then\n%s\nelse\n%s' % (cterm, indent(a), indent(b))
             if n == 0:
                 return '(%s : R _).bind fun _ =>\n%s' % (m, k('()', 'unit'))
+            if n == 1 and roots:
+                ty = ctx.lookup(roots[0])[1]; v = ctx.fresh(roots[0]); ctx.bind_var(roots[0], v, ty)
+                return '(%s : R _).bind fun %s =>\n%s' % (m, v, k('()', 'unit'))
             p = ctx.fresh('j')
             lets = []
             for i, r in enumerate(roots):
@@ -1137,8 +1212,17 @@ class Translator:
         try:
             cterm = self.cond(cond_ast2, ctx)
         except Impure:
-            return self.tr(cond_ast2, ctx, lambda b, bt: with_cond('%s = true' % paren(b)), 'b')
+            return self.cond_cps(cond_ast2, ctx, with_cond)
         return with_cond(cterm)
+
+    def cond_cps(self, e, ctx, k):
+        """a condition with effectful operands: evaluate the operands, then form the proposition"""
+        e = strip_paren(e)
+        if e[0] == 'binary' and e[1] in CMP:
+            return self.tr_list([e[2], e[3]], ctx, lambda vs: k('%s %s %s' % (paren(vs[0][0]), CMP[e[1]], paren(vs[1][0]))))
+        if e[0] == 'unary' and e[1] == '!':
+            return self.cond_cps(e[2], ctx, lambda c_: k('¬ (%s)' % c_))
+        return self.tr(e, ctx, lambda b, bt: k('%s = true' % paren(b)), 'b')
 
     def pattern_lean(self, pat, ty, ctx):
         """Lean pattern for a Rust pattern; binds its variables in ctx.env"""
@@ -1192,6 +1276,9 @@ class Translator:
             vt = tys[0] or 'unit'; has_val = vt != 'unit'
             n = len(roots) + (1 if has_val else 0)
             if n == 0: return '(%s : R _).bind fun _ =>\n%s' % (m, k('()', 'unit'))
+            if n == 1 and roots:
+                ty = ctx.lookup(roots[0])[1]; v = ctx.fresh(roots[0]); ctx.bind_var(roots[0], v, ty)
+                return '(%s : R _).bind fun %s =>\n%s' % (m, v, k('()', 'unit'))
             p = ctx.fresh('j'); lets = []
             for i, r in enumerate(roots):
                 ty = ctx.lookup(r)[1]; v = ctx.fresh(r)
@@ -1247,7 +1334,7 @@ class Translator:
         if pat[0] == 'pref': return self.bind_pattern(pat[1], term, ty, ctx, declared)
         if pat[0] == 'pid':
             n = pat[1]; declared.append(n); ctx.aliases.pop(n, None)
-            if re.match(r'^[A-Za-z_][A-Za-z0-9_\']*$|^[0-9]+$', term) and not pat[2]:
+            if re.match(r'^[A-Za-z_][A-Za-z0-9_\']*$|^[0-9]+$', term):
                 ctx.bind_var(n, term, ty); return ''
             v = ctx.fresh(n); ctx.bind_var(n, v, ty)
             return 'let %s := %s\n' % (v, term)
@@ -1453,14 +1540,14 @@ class Translator:
                 params.append((name, conv_type(ty, ctx0)))
         ret_t = conv_type(ast[4], ctx0)
         fi.ret_t = ret_t; fi.inouts = inouts; fi.params_t = [t for _, t in params]
-        lean_params = [(n if n != '_' else '_', lean_type(t)) for n, t in params]
+        lean_params = [(lean_ident(n) if n != '_' else '_', lean_type(t)) for n, t in params]
         full_ret = lean_type(ret_t) if not inouts else '(%s × %s)' % (' × '.join(lean_type(t) for n, t in params if n in inouts), lean_type(ret_t))
         def run(pure_mode):
             ctx = Ctx(self, fi); self.setup_generics(ctx); ctx.pure_mode = pure_mode
             ctx.inouts = inouts; ctx.ret_t = ret_t
             for n, t in params:
                 if n != '_':
-                    ctx.counter[n] = 1; ctx.bind_var(n, n, t)
+                    ctx.counter[lean_ident(n)] = 1; ctx.bind_var(n, lean_ident(n), t)
             ctx.counter['c'] = 1
             ctx.frames.append(Frame('fn'))
             body = self.tr_block(ast[5], ctx, lambda v, vt: self.emit_return(v, ctx))
@@ -1490,7 +1577,7 @@ def translate_crate(repo):
         except Unsupported as ex:
             report['untranslated']['%s.%s' % k] = str(ex)
     out = ['-- GENERATED by tools/gen_fns.py from the Rust sources of /repo; do not edit.',
-           'import Sucds.Gen.Consts', 'import Sucds.Model.RustSem', 'import Sucds.Model.CompactVector', 'import Sucds.Model.Rank9',
+           'import Sucds.Gen.Consts', 'import Sucds.Model.RustSem', 'import Sucds.Model.CompactVector', 'import Sucds.Model.Rank9', 'import Sucds.Model.EliasFano',
            'set_option linter.unusedVariables false', 'namespace Sucds.GenFn', 'open Sucds', '']
     # constants used by the translated bodies
     done = set()
@@ -1502,6 +1589,11 @@ def translate_crate(repo):
         out.append('/-- `const %s` — %s -/' % (n, m))
         out.append('@[reducible] def %s.%s : Nat := %d' % (m, n, v))
     out.append('')
+    for q in crate.auto_used:
+        out.append('/-- `struct %s` — %s (generated: no model structure is configured for it) -/' % (q, crate.struct_home[q]))
+        out.append('structure %s where' % q)
+        for f in crate.struct_order[q]: out.append('  %s : %s' % (f, lean_type(crate.ftype(q, f))))
+        out.append('deriving Repr, Inhabited\n')
     for fi in T.order:
         out.append(fi.text)
         report['translated'].append({'name': fi.lean_name, 'src': '%s:%d' % (fi.path, fi.meta['line']), 'pure': fi.pure,
